@@ -111,10 +111,10 @@ func Run(r *ev.Run) {
 	logrus.StandardLogger().ExitFunc = func(code int) { panic(fmt.Sprintf("logrus.Fatal -> os.Exit(%d)", code)) }
 	m := &monitor{r: r, rng: gen.New(r.Seed, "c18")}
 	m.scannerSelfTest()
-	hs := histories(m.rng, r.Pick(4, 24))
+	hs := histories(m.rng, r.Pick(5, 24))
 	for _, h := range hs {
 		m.v1Scenario(h, false)
-		if r.Thorough() || h.name == "rotated" || h.name == "single-keys" {
+		if r.Thorough() || h.name == "rotated-clients" || h.name == "single-keys" {
 			m.v1Scenario(h, true)
 		}
 		m.v2Scenario(h)
@@ -155,6 +155,13 @@ func (m *monitor) scannerSelfTest() {
 	if why, _ := scan(noise, sec); why != "" {
 		m.r.Violation("non-vacuity:secret-scanner-false-positive", why)
 	}
+}
+
+func b2i(b bool) int {
+	if b {
+		return 1
+	}
+	return 0
 }
 
 func histClass(h historySpec) string {
@@ -358,7 +365,8 @@ func expectV2(src *ksdump.Dump, sel selection, ids []keystore.ExportID) (expecta
 			names = []string{ksdump.Hmac([]byte(parts[1]))}
 		}
 		for _, n := range names {
-			if e := src.E[n]; e.OK() {
+			// also when the source cannot read it (current key destroyed): the ring travelled, the target must answer alike
+			if e, ok := src.E[n]; ok {
 				ex.present[n] = e
 			}
 		}
@@ -393,7 +401,7 @@ func (m *monitor) compare(format string, h historySpec, sel, target string, ex e
 			r.Count("v2_ring_views_compared", 1)
 		}
 		r.Count("exported_entries_compared", 1)
-		if got.Equal(want) {
+		if got.Equal(want) || (!want.OK() && !got.OK() && got.Panic == "") {
 			continue
 		}
 		cls := "differs"
@@ -402,6 +410,8 @@ func (m *monitor) compare(format string, h historySpec, sel, target string, ex e
 			cls = "panic@" + got.Panic
 		case !got.OK():
 			cls = "missing"
+		case !want.OK():
+			cls = "readable-though-unreadable-on-source"
 		case len(got.Vals) == len(want.Vals) && len(got.Vals) > 0 && allZero(got.Vals[0]) && !allZero(want.Vals[0]):
 			cls = "all-zero-value"
 		case len(got.Vals) != len(want.Vals):
@@ -410,7 +420,17 @@ func (m *monitor) compare(format string, h historySpec, sel, target string, ex e
 		bad[cls] = append(bad[cls], entryKind(n))
 	}
 	for cls, kinds := range bad {
-		m.violate(format, h, sel, target, fmt.Sprintf("exported-key-not-identical(%s:%s)", cls, joinKinds(kinds)), detail())
+		what := joinKinds(kinds)
+		readable := 0
+		for _, e := range ex.present {
+			if e.OK() {
+				readable++
+			}
+		}
+		if len(kinds) == readable && len(kinds) > 3 {
+			what = "every-exported-key"
+		}
+		m.violate(format, h, sel, target, fmt.Sprintf("exported-key-not-identical(%s:%s)", cls, what), detail())
 	}
 	var changed []string
 	for _, n := range after.Names() {
@@ -523,7 +543,10 @@ func (m *monitor) v1Scenario(h historySpec, twoDirs bool) {
 		}
 		if err != nil {
 			r.Count("exports_failed", 1)
-			m.violate(format, h, sel.name, "-", fmt.Sprintf("export-failed(%s)", normErr(err)), map[string]interface{}{"error": err.Error(), "ids": selectedIDs(ids)})
+			// the history features the known export defects depend on are part of the signature, so that an export failure
+			// on a history WITHOUT them is a different violation
+			m.violate(format, h, sel.name, "-", fmt.Sprintf("export-failed(%s)[poison-sym=%d,rotated-poison-pair=%d]", normErr(err), b2i(h.poisonSym > 0), b2i(h.poisonPair > 1)),
+				map[string]interface{}{"error": err.Error(), "ids": selectedIDs(ids)})
 			continue
 		}
 		r.Count("exports_ok", 1)
@@ -667,10 +690,7 @@ func (m *monitor) v2Scenario(h historySpec) {
 		}
 		m.scanBundle(format, h, sel.name, bundle, secrets)
 		ex, exported := expectV2(srcDump, sel, ids)
-		if len(exported) == 0 && len(srcDump.L["ListKeyRings"].Items) > 0 && ids == nil {
-			// nothing to compare against would make the case vacuous: the selection promises keys
-			m.violate(format, h, sel.name, "-", "selection-exports-nothing", nil)
-		}
+		var honest *ksdump.Dump
 		for _, tk := range []string{"empty", "other-client"} {
 			tgt := newV2()
 			if tk == "other-client" {
@@ -678,6 +698,7 @@ func (m *monitor) v2Scenario(h historySpec) {
 				must(tgt.ks.GenerateClientIDSymmetricKey(idT))
 			}
 			before := tgt.dump(allIDs)
+			rawBefore := tgt.raw()
 			tgt.open()
 			var ierr error
 			if !m.guard(format, h, sel.name, tk, "import", func() { _, ierr = tgt.backuper().Import(copyBackup(bundle)) }) {
@@ -685,11 +706,14 @@ func (m *monitor) v2Scenario(h historySpec) {
 			}
 			if ierr != nil {
 				r.Count("imports_failed", 1)
-				m.violate(format, h, sel.name, tk, fmt.Sprintf("import-failed(%s)", normErr(ierr)), map[string]interface{}{"error": ierr.Error(), "ids": selectedIDs(ids), "exported_rings": exported})
+				same, what := rawEqual(rawBefore, tgt.raw())
+				m.violate(format, h, sel.name, tk, fmt.Sprintf("import-failed(%s)", normErr(ierr)), map[string]interface{}{"error": ierr.Error(), "ids": selectedIDs(ids), "exported_rings": exported,
+					"failed_import_left_target_unchanged": same, "first_difference": what})
 				continue
 			}
 			r.Count("imports_ok", 1)
 			after := tgt.dump(allIDs)
+			honest = after
 			m.compare(format, h, sel.name, tk, ex, before, after, map[string]interface{}{"ids": selectedIDs(ids), "exported_rings": exported})
 			r.SampleN("import:"+format, 2, map[string]interface{}{"what": "import compared", "format": format, "history": h.name, "selection": sel.name, "ids": selectedIDs(ids), "target": tk, "bundle_bytes": len(bundle.Data), "rings": exported})
 		}
@@ -709,14 +733,19 @@ func (m *monitor) v2Scenario(h historySpec) {
 				must(ksrig.GenClient(tgt.ks, idT))
 			},
 			acceptedOK: func() string {
+				// an access-key text that decodes to the same keys must give exactly what the honest import gave
+				if honest == nil {
+					return ""
+				}
 				after := tgt.dump(allIDs)
-				for n, want := range ex.present {
-					if !after.E[n].Equal(want) {
+				for n := range ex.present {
+					if !after.E[n].Equal(honest.E[n]) {
 						return entryKind(n)
 					}
 				}
 				return ""
 			},
+			skipText: func() bool { return honest == nil },
 		})
 	}
 	m.v2Delegates(h, src, srcDump)
@@ -873,7 +902,7 @@ func (m *monitor) migration(h historySpec) {
 	after := dst.dump(allIDs)
 	detail := map[string]interface{}{"v1": srcDump.Render(), "v2_after_migration": after.Render(), "migration_error": fmt.Sprint(err)}
 	if err != nil {
-		m.violate(format, h, "all", "empty", fmt.Sprintf("migration-failed(%s)", normErr(err)), detail)
+		m.violate(format, h, "all", "empty", fmt.Sprintf("migration-failed(%s)[rotated-keys=%d,poison-sym=%d]", normErr(err), b2i(h.hasRotation()), b2i(h.poisonSym > 0)), detail)
 	}
 	bad := map[string][]string{}
 	for _, n := range srcDump.Names() {
